@@ -330,7 +330,10 @@ def r5_order_equals_sizes(ctx):
     ctx.ob(co.where, "the contig order walked by streams is exactly the contigs that have sizes, in the same order (no extra filter)", ok, detail, key="C12-R5|order-vs-sizes")
 
 
-from .c08 import r5_similarity as _similarity_streams      # per-contig contingency tables are accumulated in lock-step over the synchronised streams
+def _similarity_streams(ctx):
+    from .c08 import r5_similarity              # per-contig tables are accumulated in lock-step over the synchronised streams (the formulas are C08's business)
+    with ctx.only("synchronised streams"):
+        r5_similarity(ctx)
 
 
 def r6_group_boundaries_and_filter(ctx):
